@@ -31,14 +31,20 @@ Record slc := { s_id : nat; s_off : nat; s_len : nat }.
 Definition rd (h : heap) (s : slc) : list N := firstn (s_len s) (skipn (s_off s) (nth (s_id s) h [])).
 Definition rdo (h : heap) (o : option slc) : list N := match o with Some s => rd h s | None => [] end.
 
-(* b[off .. off+len) := 0, within the bounds of b *)
+(* zero(b): `for i := 0; i < lenb; i++ { b[i] = 0 }` -- the start index and the stored byte are the two integer
+   literals of the function body as extracted from the source (review round 2: so that `i := 1` or `b[i] = 1`
+   in the source breaks C15_zero_erases at make time, not only the harness monitor) *)
+Definition zero_from : nat := N.to_nat (lit lits_zero 0).
+Definition zero_byte : N := lit lits_zero 1.
+
+(* b[off .. off+len) := zero_byte, within the bounds of b *)
 Fixpoint zero_buf (off len : nat) (b : list N) : list N :=
   match b with
   | [] => []
   | x :: t =>
       match off with
       | S o => x :: zero_buf o len t
-      | O => match len with O => x :: t | S l => 0 :: zero_buf 0 l t end
+      | O => match len with O => x :: t | S l => zero_byte :: zero_buf 0 l t end
       end
   end.
 
@@ -50,7 +56,8 @@ Fixpoint upd (h : heap) (i : nat) (f : list N -> list N) : heap :=
   end.
 
 (* zero(b) of extendedkey.go on a slice *)
-Definition zero_slc (h : heap) (s : slc) : heap := upd h (s_id s) (zero_buf (s_off s) (s_len s)).
+Definition zero_slc (h : heap) (s : slc) : heap :=
+  upd h (s_id s) (zero_buf (zero_from + s_off s) (Nat.iter zero_from pred (s_len s))).
 Definition zero_opt (h : heap) (o : option slc) : heap := match o with Some s => zero_slc h s | None => h end.
 
 Definition whole (id : nat) (b : list N) : slc := {| s_id := id; s_off := 0; s_len := length b |}.
